@@ -25,8 +25,8 @@ RULE = ("random walks on {whitespace, keep-chain, include-header, pdb-output, ap
 ASSUMPTIONS = ["'byte-identical' is judged on the numeric token text of the PQR atom lines (fixed columns or tokens)",
                "a terminus counts as 'actually neutralised' when the atoms of the two outputs show the lost amine "
                "hydrogen (N) or the gained HO (C)"]
-MIN = {"quick": {"pairs_compared": 350, "dropwater_pairs": 15, "neutral_pairs": 22, "ffout_pairs": 60, "dropwater_colliding_numbering": 4, "neutral_pairs_pka_route": 3},
-       "thorough": {"pairs_compared": 12000, "dropwater_pairs": 800, "neutral_pairs": 700, "ffout_pairs": 2000, "dropwater_colliding_numbering": 400, "neutral_pairs_pka_route": 400}}
+MIN = {"quick": {"pairs_compared": 350, "dropwater_pairs": 15, "neutral_pairs": 22, "ffout_pairs": 60, "dropwater_colliding_numbering": 4, "neutral_pairs_pka_route": 3, "ligand_walks": 8},
+       "thorough": {"pairs_compared": 12000, "dropwater_pairs": 800, "neutral_pairs": 700, "ffout_pairs": 2000, "dropwater_colliding_numbering": 400, "neutral_pairs_pka_route": 400, "ligand_walks": 400}}
 FLAGS = ["whitespace", "keepchain", "header", "pdbout", "apbs", "ffout"]
 
 
@@ -38,6 +38,11 @@ def cases(tier, seed):
         out.append({"kind": "walk", "w": "frag" if i % 4 == 3 else "synth", "seed": seed * 12007 + i, "ff": ff,
                     "steps": steps, "p": {"maxlen": 6, "na_prob": 0.15, "waters": [0, 2, 4], "variant_prob": 0.15,
                                           "icode_prob": 0.3}})
+    # complexes run with --ligand: the ligand's atoms are appended to the written list by main.non_trivial, whatever the
+    # ligand's place in the file (here: before the waters, or between two peptides)
+    for i in range(12 if tier == "quick" else 600):
+        out.append({"kind": "walk", "w": "complex", "seed": seed * 12011 + i, "ff": ["AMBER", "PARSE", "CHARMM"][i % 3],
+                    "steps": steps, "p": {}})
     nd = 30 if tier == "quick" else 3500
     for i in range(nd):
         out.append({"kind": "dropwater", "w": "frag" if i % 3 == 0 else "synth", "seed": seed * 13001 + i,
@@ -95,10 +100,59 @@ def _unparsable(line, whitespace):
         return True
 
 
+def build_complex(rng):
+    """Peptide + ligand hetero group (not the last residue of the file) + waters [+ a second peptide]."""
+    import numpy as np
+    from ..gen import mol2gen, pdbfmt
+    from ..gen import structures as S
+    from .c16 import het_residue, params
+    for _ in range(20):
+        if rng.random() < 0.5:
+            path = rng.choice([p for p in mol2gen.LOCAL if len(mol2gen.parse(p.read_text())["atoms"]) < 60])
+            mol = mol2gen.parse(path.read_text())
+        else:
+            mol = mol2gen.random_molecule(rng, 2, 6)
+        for a in mol["atoms"]:
+            a["resn"] = "LIG"
+        if {a["name"] for a in mol["atoms"]} & {"O", "H1", "H2"}:
+            continue
+        lig_text = mol2gen.write(mol)
+        try:
+            params(lig_text)
+        except Exception:  # noqa: BLE001
+            continue
+        break
+    else:
+        return None
+    pool = ["ALA", "GLY", "SER", "LEU", "LYS", "ASP", "THR", "VAL", "ASN"]
+    pep = S.peptide(S.random_sequence(rng, rng.randint(3, 5), pool=pool), rng)
+    c0 = S.centroid(pep)
+    entries = [{"id": "A", "start": 1, "residues": pep},
+               {"id": rng.choice(["A", "L"]), "start": 301, "residues": [het_residue(mol, "LIG", c0 + np.array([25.0, 0, 0]))]}]
+    wat = [S.water(c0 + np.array([0, -12.0, 0]), rng, spread=3.0) for _ in range(rng.randint(1, 3))]
+    entries.append({"id": rng.choice(["A", "W"]), "start": 401, "residues": wat})
+    if rng.random() < 0.4:
+        pep2 = S.peptide(S.random_sequence(rng, 3, pool=pool), rng)
+        S.transform(pep2, np.eye(3), np.array([0.0, 30.0, 0.0]))
+        entries.append({"id": "B", "start": 1, "residues": pep2})
+    items, truth = S.assemble(entries)
+    return {"text": pdbfmt.to_text(items), "truth": truth, "lig_text": lig_text}
+
+
 def run_walk(spec, res):
     rng = random.Random(spec["seed"])
-    m = workload.materialise(spec)
-    variant = rng.choice(["default", "default", "noopt", "nodebump", "dropwater", "titr", "titr"])
+    extra_files = None
+    if spec["w"] == "complex":
+        m = build_complex(rng)
+        if m is None:
+            res.note("no parameterisable ligand drawn")
+            return
+        extra_files = {"lig.mol2": m["lig_text"]}
+        variant = rng.choice(["default", "noopt", "nodebump", "dropwater"])
+        res.count("ligand_walks")
+    else:
+        m = workload.materialise(spec)
+        variant = rng.choice(["default", "default", "noopt", "nodebump", "dropwater", "titr", "titr"])
     base = {"default": [], "noopt": ["--noopt"], "nodebump": ["--nodebump"], "dropwater": ["--drop-water"],
             "titr": []}[variant]
     table = None
@@ -112,6 +166,9 @@ def run_walk(spec, res):
         for row in table:
             row["pKa"] = row["model_pKa"] = round(rng.uniform(0.5, 13.5), 2)
         base = ["--titration-state-method=propka", f"--with-ph={ph}"]
+    if extra_files:
+        base = base + ["--ligand={dir}/lig.mol2"]
+        variant = "ligand-" + variant
     state = {f: False for f in FLAGS}
     state["ffout"] = None
     prev = None
@@ -131,7 +188,7 @@ def run_walk(spec, res):
             from . import c06
             c06.STUB["table"] = table
         try:
-            r = pipeline.run(m["text"], opts, workname="c09")
+            r = pipeline.run(m["text"], opts, workname="c09", extra_files=extra_files)
         finally:
             if table is not None:
                 c06.STUB["table"] = None
@@ -161,6 +218,8 @@ def run_walk(spec, res):
             res.count("pairs_compared")
             if change[0] == "ffout":
                 res.count("ffout_pairs")
+                if extra_files:
+                    res.count("ffout_pairs_with_ligand")
             res.cell(change[0], spec["ff"], variant)
             if len(pq) >= 20:
                 res.nt(change, spec["ff"], variant, spec["seed"])
